@@ -454,21 +454,36 @@ func TypedSchema() *rapid.Generator[SchemaTree] {
 		if hasSubscription && !contains(g.objects, subName) {
 			g.objects = append(g.objects, subName)
 		}
+		// with an explicit schema definition, a type of another kind may carry the default name of a
+		// root that is absent or named differently (`enum Mutation`): it must not become a root
+		taken := map[string]bool{}
+		rootLike := func(fallback string) string {
+			if !customRoots || !g.chance("rootlikename", 5) {
+				return fallback
+			}
+			for _, n := range []string{"Mutation", "Subscription", "Query"} {
+				if !taken[n] && !contains(g.objects, n) && g.chance("whichrootlike", 2) {
+					taken[n] = true
+					return n
+				}
+			}
+			return fallback
+		}
 		for i, n := 0, rapid.IntRange(0, 3).Draw(t, "nint"); i < n; i++ {
-			g.interfaces = append(g.interfaces, fmt.Sprintf("I%d", i+1))
+			g.interfaces = append(g.interfaces, fmt.Sprintf("I%d", i+1)) // (names key the field-name pools: not renamed)
 		}
 		for i, n := 0, rapid.IntRange(0, 2).Draw(t, "nunion"); i < n; i++ {
-			g.unions = append(g.unions, fmt.Sprintf("U%d", i+1))
+			g.unions = append(g.unions, rootLike(fmt.Sprintf("U%d", i+1)))
 		}
 		for i, n := 0, rapid.IntRange(1, 2).Draw(t, "nenum"); i < n; i++ {
-			g.enums = append(g.enums, fmt.Sprintf("E%d", i+1))
+			g.enums = append(g.enums, rootLike(fmt.Sprintf("E%d", i+1)))
 		}
 		g.inputBias = g.chance("inputbias", 4)
 		for i, n := 0, rapid.IntRange(1, 3).Draw(t, "ninput"); i < n || (g.inputBias && i < 2); i++ {
-			g.inputs = append(g.inputs, fmt.Sprintf("In%d", i+1))
+			g.inputs = append(g.inputs, rootLike(fmt.Sprintf("In%d", i+1)))
 		}
 		for i, n := 0, rapid.IntRange(0, 2).Draw(t, "nscalar"); i < n; i++ {
-			g.scalars = append(g.scalars, []string{"Date", "JSON"}[i])
+			g.scalars = append(g.scalars, rootLike([]string{"Date", "JSON"}[i]))
 		}
 
 		// enums and scalars first (needed for literals)
